@@ -1061,6 +1061,13 @@ pub fn restart(rng: &mut Rng) -> Program {
         let d = *g.rng.pick(&[2u64, 3, 5, 8]);
         a.started.push(SStep::Sleep(d));
     }
+    // one case in six: the actor subscribes to a broker topic in started(), i.e. once per incarnation: whatever the
+    // restart strategy does to the actor value, it stays the same subscriber (publications arrive exactly once)
+    let subscribes = !via_register && g.rng.chance(1, 6);
+    if subscribes {
+        a.started.push(SStep::Subscribe(0));
+        g.prog.topics = vec![0];
+    }
     g.prog.actors.push(a);
     g.layout(nclients);
     if via_register {
@@ -1093,6 +1100,13 @@ pub fn restart(rng: &mut Rng) -> Program {
     let d = g.rng.range(0, 12);
     g.prog.clients[0].push(Op::Sleep(d));
     g.prog.clients[0].push(Op::Call { slot: if via_register { 2 } else { 0 }, script: vec![], cancel: None });
+    if subscribes {
+        for _ in 0..g.rng.range(1, 2) {
+            g.prog.clients[0].push(Op::Publish { topic: 0, via: Via::Static });
+            g.prog.clients[0].push(Op::BrokerPing { topic: 0 });
+        }
+        g.prog.clients[0].push(Op::Sleep(1));
+    }
     g.prog
 }
 
